@@ -220,13 +220,13 @@ class SSHChannel(log.Logger):
             self.buf += data
             return
         top = len(data)
-        if top > self.remoteWindowLeft:
+        windowFull = top > self.remoteWindowLeft
+        if windowFull:
             data, self.buf = (
                 data[: self.remoteWindowLeft],
                 data[self.remoteWindowLeft :],
             )
             self.areWriting = 0
-            self.stopWriting()
             top = self.remoteWindowLeft
         rmp = self.remoteMaxPacket
         write = self.conn.sendData
@@ -234,6 +234,10 @@ class SSHChannel(log.Logger):
         for offset in r:
             write(self, data[offset : offset + rmp])
         self.remoteWindowLeft -= top
+        if windowFull:
+            # stopWriting() may itself write: only call it once the part
+            # of the window claimed above has been used and accounted for.
+            self.stopWriting()
         if self.closing and not self.buf:
             self.loseConnection()  # try again
 
@@ -252,13 +256,13 @@ class SSHChannel(log.Logger):
             else:
                 self.extBuf.append([dataType, data])
             return
-        if len(data) > self.remoteWindowLeft:
+        windowFull = len(data) > self.remoteWindowLeft
+        if windowFull:
             data, self.extBuf = (
                 data[: self.remoteWindowLeft],
                 [[dataType, data[self.remoteWindowLeft :]]],
             )
             self.areWriting = 0
-            self.stopWriting()
         while len(data) > self.remoteMaxPacket:
             self.conn.sendExtendedData(self, dataType, data[: self.remoteMaxPacket])
             data = data[self.remoteMaxPacket :]
@@ -266,6 +270,9 @@ class SSHChannel(log.Logger):
         if data:
             self.conn.sendExtendedData(self, dataType, data)
             self.remoteWindowLeft -= len(data)
+        if windowFull:
+            # As in write(): stopWriting() may itself write.
+            self.stopWriting()
         if self.closing:
             self.loseConnection()  # try again
 
